@@ -655,7 +655,7 @@ func (tx *Tx) findRangeOnDisk(fID, rootOff int64, start, end, newStart, newEnd [
 
 func (tx *Tx) prefixScanByHintBPTSparseIdx(bucket string, prefix []byte, offsetNum int, limitNum int) (es Entries, off int, err error) {
 	newPrefix := getNewKey(bucket, prefix)
-	records, voff, err := tx.db.ActiveBPTreeIdx.PrefixScan(newPrefix, offsetNum, limitNum)
+	records, voff, err := tx.db.ActiveBPTreeIdx.prefixScan(newPrefix, offsetNum, limitNum, false)
 	if err == nil && records != nil {
 		for _, r := range records {
 			path := tx.db.getDataPath(r.H.fileID)
@@ -679,7 +679,7 @@ func (tx *Tx) prefixScanByHintBPTSparseIdx(bucket string, prefix []byte, offsetN
 	}
 
 	leftNum := limitNum - len(es)
-	if leftNum > 0 {
+	if leftNum > 0 || limitNum <= 0 {
 		entries, voff, err := tx.prefixScanOnDisk(bucket, prefix, offsetNum, leftNum)
 		if err != nil {
 			return nil, off, err
@@ -699,7 +699,7 @@ func (tx *Tx) prefixScanByHintBPTSparseIdx(bucket string, prefix []byte, offsetN
 
 func (tx *Tx) prefixSearchScanByHintBPTSparseIdx(bucket string, prefix []byte, reg string, offsetNum int, limitNum int) (es Entries, off int, err error) {
 	newPrefix := getNewKey(bucket, prefix)
-	records, voff, err := tx.db.ActiveBPTreeIdx.PrefixSearchScan(newPrefix, reg, offsetNum, limitNum)
+	records, voff, err := tx.db.ActiveBPTreeIdx.prefixSearchScan(newPrefix, reg, offsetNum, limitNum, false)
 	if err == nil && records != nil {
 		for _, r := range records {
 			path := tx.db.getDataPath(r.H.fileID)
@@ -723,7 +723,7 @@ func (tx *Tx) prefixSearchScanByHintBPTSparseIdx(bucket string, prefix []byte, r
 	}
 
 	leftNum := limitNum - len(es)
-	if leftNum > 0 {
+	if leftNum > 0 || limitNum <= 0 {
 		entries, voff, err := tx.prefixSearchScanOnDisk(bucket, prefix, reg, offsetNum, leftNum)
 		if err != nil {
 			return nil, off, err
